@@ -135,7 +135,8 @@ class FileCache:
         None
         """
         with self.file_futures_lock:
-            can_cache = self.recover_memory(memory_usage)
+            # contents that can never fit are served uncached (recover_memory requires claim <= max_memory)
+            can_cache = memory_usage <= self.max_memory and self.recover_memory(memory_usage)
             if not can_cache:
                 logging.warning(f"unable to recover memory for requsted file: {file_name} {memory_usage} {self.max_memory} {self.current_memory_usage}")
             info = self.file_futures.get(file_name)
@@ -147,6 +148,8 @@ class FileCache:
                 self.file_futures[file_name] = (False, memory_usage, info[-1])
             else:
                 del self.file_futures[file_name]
+                self.file_access_times = [(t, fn) for t, fn in self.file_access_times if fn != file_name]
+                heapq.heapify(self.file_access_times)
 
     def update_file(self, file_name, new_file_contents, use_fsync=False):
         """
